@@ -165,7 +165,14 @@ def _sleep(s: float) -> None:
     w.hits["sleep"] += 1
     if w.trace is not None:
         w.trace.append(("dsleep", s, w.t - w.call_t0))
-    if s == s and s > 0 and s != float("inf"):
+    # what the real time.sleep does with values the library should never hand it
+    if s != s:
+        raise ValueError("Invalid value NaN (not a number)")
+    if s < 0:
+        raise ValueError("sleep length must be non-negative")
+    if s == float("inf"):
+        raise OverflowError("timestamp too large to convert to C _PyTime_t")
+    if s > 0:
         w.t += s
 
 
